@@ -47,17 +47,30 @@ class SchedLock:
     def _reset(self):
         with self._m:
             self._owner, self._depth = None, 0
+        self._released_at = None
+
+    def _after_release(self, w):
+        # virtual time: whoever takes the lock does so no earlier than the moment the previous holder let go of it
+        at = getattr(self, '_released_at', None)
+        if w is not None and at is not None:
+            k = threading.get_ident()
+            if w.clocks.get(k, 0.0) < at:
+                w.clocks[k] = at
 
     def acquire(self, blocking=True, timeout=-1):
+        w = vnet.current()
         if self._try():
+            self._after_release(w)
             return True
         if not blocking:
             return False
-        w = vnet.current()
         s = w.sched if w is not None else None
         label = s.by_thread.get(threading.get_ident()) if s is not None else None
         if s is not None and label is not None:
-            return s.lock_wait(label, self)
+            ok = s.lock_wait(label, self)
+            if ok:
+                self._after_release(w)
+            return ok
         # outside the worker pool (single-target runs, the tool's main thread): wait in real time, briefly
         limit = _time.time() + (timeout if timeout is not None and timeout >= 0 else 1.5)
         while _time.time() < limit:
@@ -79,6 +92,8 @@ class SchedLock:
                 return
             self._owner = None
         w = vnet.current()
+        if w is not None:
+            self._released_at = w.clock
         s = w.sched if w is not None else None
         if s is not None:
             s.lock_released(self)
